@@ -56,6 +56,18 @@ NAMINGS = {
 }
 
 
+# hand-picked graphs on 5 and 6 layers (beyond the exhaustive node bound): a
+# diamond whose shared base has a base of its own plus an unrelated last base,
+# stacked diamonds, a layer reached on three paths
+DEEP_GRAPHS = [
+    [[], [0], [0], [], [1, 2, 3]],
+    [[], [0], [1], [1], [], [2, 3, 4]],
+    [[], [0], [0], [1, 2], [3], [4, 3]],
+    [[], [], [0], [0, 1], [2, 3], [4, 1]],
+    [[], [0], [0], [0], [1, 2], [4, 3]],
+]
+
+
 def names_for(n, naming):
     if naming == 'fwd':
         return list('ABCDEFGH'[:n])
